@@ -118,8 +118,16 @@ package stack
 //@   ensures [createdByIsOneFrameOfTheCurrentGoroutine C01] (old(s.state) == gotFileFunc || old(s.state) == gotUnavail) && s.state == gotCreated ==> len(s.Goroutines[len(s.Goroutines)-1].CreatedBy.Calls) == 1 && len(s.Goroutines[len(s.Goroutines)-1].Stack.Calls) == old(len(s.Goroutines[len(s.Goroutines)-1].Stack.Calls))
 //@   ensures [elidedMarkerSetsTheFlag C01] old(s.state) == gotFileFunc && s.state == gotFileFunc && result0 ==> s.Goroutines[len(s.Goroutines)-1].Stack.Elided && len(s.Goroutines[len(s.Goroutines)-1].Stack.Calls) == old(len(s.Goroutines[len(s.Goroutines)-1].Stack.Calls))
 //@   ensures [raceCreationFrameGoesToTheSelectedGoroutine C08] (old(s.state) == gotRaceGoroutineHeader || old(s.state) == gotRaceGoroutineFile) && s.state == gotRaceGoroutineFunc ==> s.goroutineIndex == old(s.goroutineIndex) && len(s.Goroutines[s.goroutineIndex].CreatedBy.Calls) == old(len(s.Goroutines[s.goroutineIndex].CreatedBy.Calls)) + 1 && (forall j :: 0 <= j && j < len(s.Goroutines) && s.Goroutines[j] != s.Goroutines[s.goroutineIndex] ==> len(s.Goroutines[j].CreatedBy.Calls) == old(len(s.Goroutines[j].CreatedBy.Calls)))
+//@   ensures [consumedLineFollowsTheTransitionTable C01 C07 C08] result0 ==> (old(s.state) == looking ==> s.state == gotRoutineHeader || s.state == gotRaceHeader1) && (old(s.state) == betweenRoutine ==> s.state == gotRoutineHeader) && (old(s.state) == gotRoutineHeader ==> s.state == gotUnavail || s.state == gotFunc) && (old(s.state) == gotFunc ==> s.state == gotFileFunc) && (old(s.state) == gotCreated ==> s.state == gotFileCreated) && (old(s.state) == gotFileFunc ==> s.state == gotCreated || s.state == gotFileFunc || s.state == gotFunc || s.state == betweenRoutine) && (old(s.state) == gotFileCreated ==> s.state == betweenRoutine) && (old(s.state) == gotUnavail ==> s.state == betweenRoutine || s.state == gotCreated) && (old(s.state) == gotRaceHeader1 ==> s.state == gotRaceHeader2) && (old(s.state) == gotRaceHeader2 ==> s.state == gotRaceOperationHeader) && (old(s.state) == gotRaceOperationHeader ==> s.state == gotRaceOperationFunc) && (old(s.state) == gotRaceOperationFunc ==> s.state == gotRaceOperationFile) && (old(s.state) == gotRaceOperationFile ==> s.state == betweenRaceOperations || s.state == gotRaceOperationFunc) && (old(s.state) == betweenRaceOperations ==> s.state == gotRaceOperationHeader || s.state == gotRaceGoroutineHeader) && (old(s.state) == betweenRaceGoroutines ==> s.state == gotRaceGoroutineHeader) && (old(s.state) == gotRaceGoroutineHeader ==> s.state == gotRaceGoroutineFunc) && (old(s.state) == gotRaceGoroutineFunc ==> s.state == gotRaceGoroutineFile) && (old(s.state) == gotRaceGoroutineFile ==> s.state == betweenRaceGoroutines || s.state == done || s.state == gotRaceGoroutineFunc)
 //@   ensures [raceErrorChangesNoState C08] (old(s.state) == betweenRaceOperations || old(s.state) == betweenRaceGoroutines) && result1 != nil && s.state != done ==> s.state == old(s.state) && s.goroutineIndex == old(s.goroutineIndex) && len(s.Goroutines) == old(len(s.Goroutines)) && forall j :: 0 <= j && j < len(s.Goroutines) ==> s.Goroutines[j].State == old(s.Goroutines[j].State)
 //@   assert after-store Snapshot.Goroutines#2: [headerFields C01] len(s.Goroutines) >= 1 && s.Goroutines[len(s.Goroutines)-1].ID == decval(match[2], len(match[2])) && s.Goroutines[len(s.Goroutines)-1].SleepMin == sleep && s.Goroutines[len(s.Goroutines)-1].SleepMax == sleep && (s.Goroutines[len(s.Goroutines)-1].Locked <==> locked) && (s.Goroutines[len(s.Goroutines)-1].First <==> len(s.Goroutines) == 1) && s.Goroutines[len(s.Goroutines)-1].RaceAddr == 0 && len(s.Goroutines[len(s.Goroutines)-1].Stack.Calls) == 0 && len(s.Goroutines[len(s.Goroutines)-1].State) == len(items[0]) && (forall k :: 0 <= k && k < len(items[0]) ==> s.Goroutines[len(s.Goroutines)-1].State[k] == items[0][k])
+//@   gvar addrTok string
+//@   update after-call strconv.ParseUint#1: addrTok := arg0
+//@   update after-call strconv.ParseUint#2: addrTok := arg0
+//@   assert after-call strconv.ParseUint#1: [raceAddressIsSecondGroup C08] len(arg0) == len(match[2]) && (forall k :: 0 <= k && k < len(arg0) ==> arg0[k] == match[2][k])
+//@   assert after-call strconv.ParseUint#2: [previousRaceAddressIsSecondGroup C08] len(arg0) == len(match[2]) && (forall k :: 0 <= k && k < len(arg0) ==> arg0[k] == match[2][k])
+//@   assert after-store Snapshot.Goroutines#3: [raceFirstOperationFromTheLine C08] s.Goroutines[0].RaceAddr == parseUintVal(addrTok, 0, 64) && (s.Goroutines[0].RaceWrite <==> (len(match[1]) == 5 && match[1][0] == 87 && match[1][1] == 114 && match[1][2] == 105 && match[1][3] == 116 && match[1][4] == 101))
+//@   assert after-store Snapshot.Goroutines#4: [racePreviousOperationFromTheLine C08] s.Goroutines[len(s.Goroutines)-1].RaceAddr == parseUintVal(addrTok, 0, 64) && (s.Goroutines[len(s.Goroutines)-1].RaceWrite <==> (len(match[1]) == 5 && match[1][0] == 119 && match[1][1] == 114 && match[1][2] == 105 && match[1][3] == 116 && match[1][4] == 101))
 //@   assert after-store Snapshot.Goroutines#3: [raceFirstOperation C08] len(s.Goroutines) == 1 && s.Goroutines[0].ID == decval(match[3], len(match[3])) && s.Goroutines[0].First && (s.Goroutines[0].RaceWrite <==> w) && s.Goroutines[0].RaceAddr == addr
 //@   assert after-store Snapshot.Goroutines#4: [racePreviousOperation C08] len(s.Goroutines) == old(len(s.Goroutines)) + 1 && s.Goroutines[len(s.Goroutines)-1].ID == decval(match[3], len(match[3])) && !s.Goroutines[len(s.Goroutines)-1].First && (s.Goroutines[len(s.Goroutines)-1].RaceWrite <==> w) && s.Goroutines[len(s.Goroutines)-1].RaceAddr == addr
 //@   assert after-store scanningState.goroutineIndex#3: [createdAtSelectsFirstGoroutineWithThatID C08] 0 <= s.goroutineIndex && s.goroutineIndex < len(s.Goroutines) && s.Goroutines[s.goroutineIndex].ID == id && (forall j :: 0 <= j && j < s.goroutineIndex ==> s.Goroutines[j].ID != id) && len(s.Goroutines[s.goroutineIndex].State) == len(match[2])
